@@ -659,6 +659,8 @@ func Run(r *evid.Run) {
 		{Name: "A3-stringbody", Alpha: views.A3, MaxLen: lens.A3, Prefix: `"`},
 		{Name: "B-atoms", Alpha: views.B, MaxLen: lens.B},
 		{Name: "W-whitespace-html", Alpha: enum.Syms("0", "[", "]", "{", "}", "\n", " ", "\t", ",", `"`, ":", "a", "<", " ", "\r"), MaxLen: lens.A1},
+		{Name: "U-utf8-fragments", Alpha: enum.ByteSyms("\xe2\x80\xa8\xa9\xc3\xf0\x9f<&\"a\\"), MaxLen: 4},
+		{Name: "U-utf8-fragments in a string", Alpha: enum.ByteSyms("\xe2\x80\xa8\xa9\xc3\xf0\x9f<&\"a\\"), MaxLen: 4, Prefix: `"`},
 	}
 	views.ForAll(r, vs, func(w *enum.Worker, v views.View) func([]byte) {
 		var cur []byte
